@@ -242,6 +242,10 @@ impl<L: Language> NthChild<L> {
     }
   }
 
+  pub(crate) fn check_cyclic(&self, id: &str) -> bool {
+    self.of_rule.as_ref().is_some_and(|r| r.check_cyclic(id))
+  }
+
   pub fn verify_util(&self) -> Result<(), RuleSerializeError> {
     if let Some(rule) = &self.of_rule {
       rule.verify_util()
